@@ -1131,8 +1131,17 @@ namespace hgraph
             // Graph shutdown is not a logical key removal and must not
             // publish erases. The terminal output may already have been
             // detached by its owning service or parent graph.
-            remove_all_entries(view, context, storage, nullptr, nullptr,
-                               evaluation_time);
+            // Best-effort, like the graph's own stop pass: a child whose stop
+            // throws must not leave the children of the other keys running
+            // until the storage is destroyed. The first failure is rethrown
+            // once every child has had its stop attempt.
+            FirstExceptionRecorder failures;
+            for (std::size_t slot = 0; slot < storage.entries.slot_capacity(); ++slot)
+            {
+                failures.capture([&] {
+                    remove_entry_at_slot(view, context, storage, nullptr, nullptr, slot, evaluation_time);
+                });
+            }
             storage.unsubscribe_keys_noexcept();
             storage.primed = false;
             storage.refresh_all_bindings = false;
@@ -1142,6 +1151,7 @@ namespace hgraph
             storage.evaluation_slots.clear();
             storage.resume_position_plus_one = 0;
             storage.child_schedule_queue.clear();
+            failures.rethrow_if_any();
         }
 
         void validate_map_node_spec(const NodeTypeMetaData &meta, const MapNodeSpec &spec)
